@@ -198,6 +198,8 @@ async fn run_paged(args: &[String]) -> (String, Option<String>) {
         }
     });
     if !user.is_empty() { l.with_controls(user); }
+    // odd page sizes: non-default search options and a (generous) timeout, which every follow-up request must repeat
+    if size % 2 == 1 { l.with_search_options(ldap3::SearchOptions::new().deref(ldap3::DerefAliases::Always).typesonly(true).timelimit(50).sizelimit(100)); l.with_timeout(std::time::Duration::from_secs(30)); }
     let started = l.streaming_search_with(PagedResults::new(size), "dc=x", Scope::Subtree, "(a=b)", vec!["cn"]).await;
     let mut st = match started { Ok(s) => s, Err(ldap3::LdapError::AdapterInit(_)) => return ("rejected".into(), if with_paged { None } else { Some("a search without a caller paging control was rejected".into()) }), Err(e) => return (format!("starterr:{}", err_class(&e)), None) };
     let mut items: Vec<String> = vec![]; let mut end = "active";
